@@ -1108,40 +1108,52 @@ def _stamp_forward_failures():
     work = tempfile.mkdtemp(prefix='redo-verif-sf.', dir='/var/tmp')
     fails, n = [], 0
     try:
-        for kind in ('file', 'pipe'):
+        for kind in ('file', 'pipe', 'sub'):
             for j in (1, 3):
                 n += 1
                 proj = os.path.join(work, 'p%d' % n)
                 os.makedirs(proj)
                 tr = 'echo "$1" >>%s/trace\n' % proj
-                if kind == 'file':
+                if kind == 'sub':
+                    # the rules are default*.do files at the top, the targets live in sub/: every script runs in the top
+                    # directory while its target's directory is sub/ (names handed from one command to the next must be
+                    # spelled for the directory they are re-joined in)
+                    os.makedirs(os.path.join(proj, 'sub'))
+                    open(os.path.join(proj, 'default.list.do'), 'w').write(tr + 'redo-ifchange sub/src\ncat sub/src >"$3"\nredo-stamp <"$3"\n')
+                    open(os.path.join(proj, 'default.out.do'), 'w').write(tr + 'redo-ifchange sub/ver.list\ncat sub/src\n')
+                    open(os.path.join(proj, 'default.top.do'), 'w').write(tr + 'redo-ifchange sub/pkg.out\nprintf "top:"; cat sub/pkg.out\n')
+                    open(os.path.join(proj, 'sub', 'src'), 'w').write('v1\n')
+                    names_ = {'list': 'sub/ver.list', 'out': 'sub/pkg.out', 'top': 'sub/pkg.top', 'src': 'sub/src'}
+                elif kind == 'file':
                     open(os.path.join(proj, 'list.do'), 'w').write(tr + 'redo-ifchange src\ncat src >"$3"\nredo-stamp <"$3"\n')
                 else:
                     open(os.path.join(proj, 'list.do'), 'w').write(tr + 'redo-ifchange src\ncat src | redo-stamp\n')
-                open(os.path.join(proj, 'out.do'), 'w').write(tr + 'redo-ifchange list\ncat src\n')
-                open(os.path.join(proj, 'top.do'), 'w').write(tr + 'redo-ifchange out\nprintf "top:"; cat out\n')
-                open(os.path.join(proj, 'src'), 'w').write('v1\n')
+                if kind != 'sub':
+                    open(os.path.join(proj, 'out.do'), 'w').write(tr + 'redo-ifchange list\ncat src\n')
+                    open(os.path.join(proj, 'top.do'), 'w').write(tr + 'redo-ifchange out\nprintf "top:"; cat out\n')
+                    open(os.path.join(proj, 'src'), 'w').write('v1\n')
+                    names_ = {'list': 'list', 'out': 'out', 'top': 'top', 'src': 'src'}
 
                 def step(cmd):
                     open(os.path.join(proj, 'trace'), 'w').close()
                     r = subprocess.run(cmd, cwd=proj, env=env, capture_output=True, text=True, timeout=120)
                     return r.returncode, sorted(open(os.path.join(proj, 'trace')).read().split())
-                rc, ran = step(['redo', '--no-log', '-j%d' % j, 'top'])
+                rc, ran = step(['redo', '--no-log', '-j%d' % j, names_['top']])
                 if rc != 0:
                     continue
-                hist = 'top -> out -> list (redo-stamp, %s); redo top' % ('writes its output' if kind == 'file' else 'pipes into redo-stamp, no output file')
+                hist = 'top -> out -> list (redo-stamp, %s); redo top' % ({'file': 'writes its output', 'pipe': 'pipes into redo-stamp, no output file', 'sub': 'writes its output; default*.do rules at the top, targets in sub/'}[kind])
                 time.sleep(0.02)
-                os.utime(os.path.join(proj, 'src'), None)
-                open(os.path.join(proj, 'src'), 'w').write('v1\n')
-                rc, ran = step(['redo-ifchange', 'top'])
-                if rc != 0 or ran != ['list']:
+                os.utime(os.path.join(proj, names_['src']), None)
+                open(os.path.join(proj, names_['src']), 'w').write('v1\n')
+                rc, ran = step(['redo-ifchange', names_['top']])
+                if rc != 0 or ran != [names_['list']]:
                     fails.append(dict(input=hist + '; rewrite src with the same content; redo-ifchange top', observed='exit %d, scripts run: %s' % (rc, ran), label='unlocked.second_phase_is_target',
                                       clause='a checksummed target rebuilt with an unchanged checksum does not rebuild its dependents'))
-                open(os.path.join(proj, 'src'), 'w').write('v2 longer\n')
-                rc, ran = step(['redo-ifchange', 'top'])
+                open(os.path.join(proj, names_['src']), 'w').write('v2 longer\n')
+                rc, ran = step(['redo-ifchange', names_['top']])
                 ood = sorted(subprocess.run(['redo-ood'], cwd=proj, env=env, capture_output=True, text=True, timeout=60).stdout.split())
-                top = open(os.path.join(proj, 'top')).read() if os.path.exists(os.path.join(proj, 'top')) else None
-                if rc != 0 or ran != ['list', 'out', 'top'] or ood or top != 'top:v2 longer\n':
+                top = open(os.path.join(proj, names_['top'])).read() if os.path.exists(os.path.join(proj, names_['top'])) else None
+                if rc != 0 or ran != sorted([names_['list'], names_['out'], names_['top']]) or ood or top != 'top:v2 longer\n':
                     fails.append(dict(input=hist + '; change src; redo-ifchange top', observed='exit %d, scripts run: %s, redo-ood: %s, top = %r' % (rc, ran, ood, top), label='unlocked.second_phase_is_target',
                                       clause='when the checksum changes every dependent is rebuilt before the same command returns success'))
     finally:
@@ -1253,7 +1265,7 @@ def conformance(prop, unit_names, pins_changed, labels_props):
                                 msg='clause fails on the real binaries for a concrete history (bounded probe contend)', where=REPO + '/src/builder.rs:run', site=None,
                                 text=h['clause'], rendered=json.dumps(h, indent=1), inputs=[h['input']], fn='run_body',
                                 label='run.start_holds_kernel_lock' if h['prop'] == 'C06' else 'run.record_read_under_lock', props=[prop]))
-    if ('gluebins' in unit_names or 'dirty' in unit_names or 'record' in unit_names) and prop in ('C03', 'C01', 'C02'):
+    if ('gluebins' in unit_names or 'dirty' in unit_names or 'record' in unit_names) and prop in ('C03', 'C01', 'C02', 'C15'):
         r = _stamp_forward_failures()
         if r and r[0]:
             hits = r[0]
@@ -1439,7 +1451,7 @@ def bounded(prop, unit_names, labels_props):
             extra.append(('same-target-twice', _same_target_twice_failures, 'sched/run_body/run.first_pass_dedupes_by_id' if prop != 'C09' else 'sched/run_body/lock_new.registry_free', lambda h: (h['prop'] == 'C09') == (prop == 'C09')))
         if prop in ('C05', 'C13'):
             extra.append(('shell-line', _shell_line_failures, 'dofiles/start_self_shell_line/shell.sh_stops_at_the_first_failing_command', lambda h: prop in h['props']))
-        if prop in ('C03', 'C01', 'C02'):
+        if prop in ('C03', 'C01', 'C02', 'C15'):
             extra.append(('stamp-forward', _stamp_forward_failures, 'gluebins/unlocked_run_phases/unlocked.second_phase_is_target', lambda h: True))
         if prop in ('C03', 'C01'):
             extra.append(('stamp-pipe', _stamp_pipe_failures, 'gluebins/stamp_digest/stamp.digest_covers_the_whole_input', lambda h: True))
